@@ -163,6 +163,10 @@ class CallModels:
         raise OutOfReach('setattr on %r' % (b,))
 
     def setitem(self, eng, b, key, v, st):
+        if type(b).__name__ in ('VMap', 'VSubList'):
+            # item store into a mapping / member list that belongs to the construct (C17)
+            eng.frame_violations.append(('item store into a %s attribute of the construct' % ('mapping' if type(b).__name__ == 'VMap' else 'member list'), st.clone()))
+            return [(st, NONE)]
         if isinstance(b, VRef):
             o = st.get(b)
             if isinstance(o, OContainer) and self.interface is not None:
